@@ -46,7 +46,7 @@ def dispatchHandles : List String → Option (Obs × Option Obs)
     let m : Obs := [("r", ",".intercalate res), ("ids", "1"), ("end", "0")]
     some (m, some m)
   | ["hstress", _, _, _, _, _] =>
-    let m : Obs := [("bad", "0"), ("end", "0")]
+    let m : Obs := [("bad", "0"), ("dup", "0"), ("end", "0")]
     some (m, some m)
   -- C16: N goroutines on their own values from a cold start: no race, same results
   | ["race", _, _, _] =>
